@@ -25,6 +25,7 @@ func init() {
 			{ID: "C13.4", Doc: "expiry and conditional get", Floor: 5, Run: c13r4},
 			{ID: "C13.5", Doc: "an inbound put hands seq and cas of the request to the store unchanged", Floor: 2, Run: c13r5},
 			{ID: "C13.6", Doc: "nothing is served or stored past the wrapper: the raw store is reachable only through it", Floor: 3, Run: c13r6},
+			{ID: "C13.7", Doc: "301 / 302 reach the wire: Wrapper.Put hands back CheckIncoming's own error value and the handler sends it (shared with C12.6)", Floor: 3, Run: c12r6},
 		},
 	})
 }
